@@ -259,6 +259,27 @@ func init() {
 			}
 			panic(pathAbort{"unsupported", "verifFmtArg: operand not found"})
 		},
+		"verifAnd": func(w *Worker, _ *frame, _ *ssa.Function, a []Value) Value {
+			return w.TF.And(a[0].(*term.Term), a[1].(*term.Term))
+		},
+		"verifOr": func(w *Worker, _ *frame, _ *ssa.Function, a []Value) Value {
+			return w.TF.Or(a[0].(*term.Term), a[1].(*term.Term))
+		},
+		"verifInSet": func(w *Worker, _ *frame, _ *ssa.Function, a []Value) Value {
+			c := a[0].(*term.Term)
+			set := w.concStr(a[1], "verifInSet set")
+			r := w.TF.False
+			for i := 0; i < len(set); i++ {
+				r = w.TF.Or(r, w.TF.Eq(c, w.TF.Byte(set[i])))
+			}
+			return r
+		},
+		"verifIteInt": func(w *Worker, _ *frame, _ *ssa.Function, a []Value) Value {
+			return w.TF.Ite(a[0].(*term.Term), a[1].(*term.Term), a[2].(*term.Term))
+		},
+		"verifStrEq": func(w *Worker, _ *frame, _ *ssa.Function, a []Value) Value {
+			return w.strEq(a[0].(*StrV), a[1].(*StrV))
+		},
 		"verifLockHeld": func(w *Worker, _ *frame, _ *ssa.Function, a []Value) Value {
 			p := a[0].(PtrV)
 			if p.O == nil {
